@@ -32,6 +32,10 @@ const (
 	kSuitePtr // *SuiteConfig (an in/out parameter)
 	kHashCtor // func() hash.Hash: which hash it constructs, nil when unset
 	kBig      // *big.Int: its value
+	kURLPtr   // *url.URL
+	kUParam   // URLParam
+	kUParamPtr // *URLParam
+	kPairs    // url.Values, map[string]string: association lists
 	kOther
 )
 
@@ -54,6 +58,10 @@ func (t *tr) kindOf(ty types.Type) kind {
 			return kSuite
 		case pk == t.pkg.PkgPath && n == "OCRAInput":
 			return kInput
+		case pk == t.pkg.PkgPath && n == "URLParam":
+			return kUParam
+		case pk == "net/url" && n == "Values":
+			return kPairs
 		case n == "error" && u.Obj().Pkg() == nil:
 			return kErr
 		}
@@ -108,11 +116,23 @@ func (t *tr) kindOf(ty types.Type) kind {
 			if n.Obj().Name() == "Param" {
 				return kParamPtr
 			}
+			if n.Obj().Name() == "URLParam" {
+				return kUParamPtr
+			}
+			if n.Obj().Name() == "URL" && n.Obj().Pkg() != nil && n.Obj().Pkg().Path() == "net/url" {
+				return kURLPtr
+			}
 			if n.Obj().Name() == "hashPool" {
 				return kPoolEntry
 			}
 			if n.Obj().Name() == "SuiteConfig" {
 				return kSuitePtr
+			}
+		}
+	case *types.Map:
+		if k, ok := u.Key().Underlying().(*types.Basic); ok && k.Kind() == types.String {
+			if v, ok := u.Elem().Underlying().(*types.Basic); ok && v.Kind() == types.String {
+				return kPairs
 			}
 		}
 	case *types.Signature:
@@ -178,6 +198,14 @@ func (t *tr) coqType(n ast.Node, ty types.Type) string {
 		return "alg"
 	case kHashCtor:
 		return "(option alg)"
+	case kURLPtr:
+		return "(option url)"
+	case kUParam:
+		return "urlparam"
+	case kUParamPtr:
+		return "(option urlparam)"
+	case kPairs:
+		return "(list (bytes * bytes))"
 	case kUnit:
 		return "unit"
 	case kFunc:
@@ -219,10 +247,12 @@ func (t *tr) zero(n ast.Node, ty types.Type) string {
 			return fmt.Sprintf("(repeat 0%%N %d)", a.Len())
 		}
 		return "[]"
-	case kErr, kParamPtr, kHashCtor:
+	case kErr, kParamPtr, kHashCtor, kURLPtr, kUParamPtr:
 		return "None"
-	case kStrList:
+	case kStrList, kPairs:
 		return "[]"
+	case kUParam:
+		return "(mkUrlParam [] [] 0 [] 0 0)"
 	case kParam:
 		return "(mkParam 0 0 0 0)"
 	case kSuite:
@@ -238,6 +268,7 @@ func (t *tr) zero(n ast.Node, ty types.Type) string {
 var fieldProj = map[string][]string{
 	"Param":       {"Digits:p_digits", "Period:p_period", "Skew:p_skew", "Algorithm:p_alg"},
 	"SuiteConfig": {"Raw:sc_raw", "Hash:sc_hash", "Digits:sc_digits", "Challenge:sc_challenge", "IncludeCounter:sc_c", "IncludeChallenge:sc_q", "IncludePassword:sc_p", "IncludeSession:sc_s", "IncludeTimestamp:sc_t", "PasswordHash:sc_pwhash", "TimeStep:sc_timestep"},
+	"URLParam":    {"Issuer:up_issuer", "AccountName:up_account", "Period:up_period", "Secret:up_secret", "Digits:up_digits", "Algorithm:up_alg"},
 	"OCRAInput":   {"Counter:oi_counter", "Challenge:oi_challenge", "Password:oi_password", "SessionInfo:oi_session", "Timestamp:oi_timestamp"},
 }
 
@@ -272,3 +303,8 @@ func (t *tr) proj(n ast.Node, structName, field string) string {
 	t.fail(n, "field %s.%s has no projection in the model's records", structName, field)
 	return ""
 }
+
+// net/url.URL as the model's record: field -> projection, in the order of the constructor mkUrl, with the default of
+// a field that a composite literal leaves out (fields of the Go struct that the model does not have are refused)
+var urlFields = []string{"Scheme:u_scheme:[]", "Opaque:u_opaque:[]", "User:u_user:false", "Host:u_host:[]", "Path:u_path:[]", "RawPath:u_rawpath:[]",
+	"ForceQuery:u_forcequery:false", "RawQuery:u_rawquery:[]", "Fragment:u_fragment:[]"}
